@@ -24,6 +24,7 @@ from elementpath.datatypes import AbstractDateTime, Duration
 from elementpath.xpath_nodes import EtreeElementNode
 
 import xmlschema.names as nm
+from xmlschema.utils.urls import normalize_url
 from xmlschema.exceptions import XMLSchemaTypeError, XMLSchemaValueError, \
     XMLResourceParseError
 from xmlschema.aliases import ElementType, BaseXsdType, SchemaElementType, \
@@ -569,7 +570,9 @@ class XsdElement(XsdComponent, ParticleMixin,
     def check_dynamic_context(self, elem: ElementType, validation: str,
                               context: ValidationContext) -> None:
         for ns, url in iter_schema_location_hints(elem):
-            if self.maps.get_schema(ns, url, context.source.base_url) is not None:
+            # The hint is relative to the XML instance, the access control is the one of the schema
+            url = normalize_url(url, context.source.base_url)
+            if self.maps.get_schema(ns, url) is not None:
                 continue
 
             if ns in iter_schema_namespaces(context.source.root, elem):
@@ -580,10 +583,10 @@ class XsdElement(XsdComponent, ParticleMixin,
                 with self.maps.protect_status():
                     if ns in self.maps.namespaces:
                         schema = self.maps.namespaces[ns][0]
-                        schema.include_schema(url, context.source.base_url)
+                        schema.include_schema(url, self.maps.validator.base_url)
                     else:
                         schema = self.schema
-                        schema.import_schema(ns, url, context.source.base_url)
+                        schema.import_schema(ns, url, self.maps.validator.base_url)
                     schema.clear()
                     schema.build()
 
@@ -1439,17 +1442,19 @@ class Xsd11Element(XsdElement):
     def check_dynamic_context(self, elem: ElementType, validation: str,
                               context: ValidationContext) -> None:
         for ns, url in iter_schema_location_hints(elem):
-            if self.maps.get_schema(ns, url, context.source.base_url) is not None:
+            # The hint is relative to the XML instance, the access control is the one of the schema
+            url = normalize_url(url, context.source.base_url)
+            if self.maps.get_schema(ns, url) is not None:
                 continue
 
             try:
                 with self.maps.protect_status():
                     if ns in self.maps.namespaces:
                         schema = self.maps.namespaces[ns][0]
-                        schema.include_schema(url, context.source.base_url)
+                        schema.include_schema(url, self.maps.validator.base_url)
                     else:
                         schema = self.schema
-                        schema.import_schema(ns, url, context.source.base_url)
+                        schema.import_schema(ns, url, self.maps.validator.base_url)
                     schema.clear()
                     schema.build()
 
